@@ -957,6 +957,15 @@ func c02Directed(rng *RNG) []c02Fault {
 		for cut := 60; cut < len(cm); cut += 3 {
 			add(fmt.Sprintf("tounicode-cut-%d", cut), mk(cm[:cut]))
 		}
+		// programs handed to the CMap parser as they are (the raw entry point): keywords that run into one another
+		for name, prog := range map[string]string{
+			"codespace-keywords-overlap": "begincodespacerangendcodespacerange",
+			"bfrange-keywords-overlap":   "1 begincodespacerange <00> <FF> endcodespacerange beginbfrangendbfrange",
+			"bfchar-keywords-adjacent":   "beginbfcharendbfchar beginbfchar endbfchar",
+			"end-before-begin":           "endcodespacerange begincodespacerange endbfrange beginbfrange endbfchar beginbfchar",
+		} {
+			add("cmap-raw:"+name, []byte(prog))
+		}
 		for name, prog := range map[string]string{
 			"bfrange-open-hex":     "1 begincodespacerange <00> <FF> endcodespacerange 1 beginbfrange <50> <52> <00 endbfrange",
 			"bfrange-open-array":   "1 begincodespacerange <00> <FF> endcodespacerange 1 beginbfrange <50> <52> [<0041> <0042> endbfrange",
